@@ -151,7 +151,7 @@ def shrink_scenario(lines, pred, budget=120):
     return cur
 
 
-def run_property(prop, tier, seed, proof, families, mon_keys, san_kinds, nontrivial, rule, n_quick=60, n_thorough=1200,
+def run_property(prop, tier, seed, proof, families, mon_keys, san_kinds, nontrivial, rule, n_quick=60, n_thorough=5000,
                  extra_cases=None, gen_kw=None):
     """families: list of family names; nontrivial: function(log_text) -> bool"""
     res = common.Result()
